@@ -380,6 +380,19 @@ def check_scenario(sc, obs, add):
     if obs.get('stuck') and not sc.get('expect_stuck_ok'):
         add('C03', 'terminates', {'stuck': obs['stuck']})
         return
+    if sc.get('all_valid') and not sc.get('inject'):
+        # a scenario made of valid calls only (nothing raises, times out, dies or is interrupted): no call may raise
+        lazy_open = False
+        for opi, (op, oo) in enumerate(zip(sc['ops'], obs.get('ops', []))):
+            if op['op'] in ('kill_idle', 'terminate') or op.get('fail') or op.get('bad_arg') or op.get('task_timeout') or op.get('worker_init_timeout') \
+                    or op.get('worker_exit_timeout'):
+                break
+            if oo.get('outcome') == 'raise' and op['op'] in MAPS + ('apply_batch', 'stop_and_join', 'set') and not lazy_open:
+                for p in ('C01', 'C02', 'C09', 'C10', 'C11', 'C12', 'C13', 'C15', 'C16', 'C18', 'C19'):
+                    add(p, 'valid_call_raises', {'op': opi, 'raised': oo.get('exc')})
+                break
+            if op['op'] in ('imap', 'imap_unordered') and op.get('consume', 'all') != 'all' and op.get('abandon') != 'close':
+                lazy_open = True
     for opi in range(len(obs.get('ops', []))):
         check_op(sc, obs, opi, add)
         check_failure_op(sc, obs, opi, add, latency_bound=sc.get('latency_bound'))
